@@ -444,6 +444,16 @@ def wrap(x, signed, n_word):
         
     return x
 
+def scale_raw(raw_val, shift):
+    """
+    Raw (integer) values rescaled by 2**shift, to express them with `shift` more (or fewer) fractional bits.
+    Python integers are used when the rescaled values would not fit in 64 bits.
+    """
+    if shift > 0 and isinstance(raw_val, (np.ndarray, np.generic)) and raw_val.dtype.kind in 'iu' and raw_val.size > 0:
+        if max(int(np.max(raw_val)), -int(np.min(raw_val))).bit_length() + shift >= 63:
+            raw_val = np.asarray(raw_val).astype(object)
+    return raw_val * 2**shift
+
 def get_sizes_from_dtype(dtype):
     if isinstance(dtype, str):
         head, props = dtype.split('-', 1)
